@@ -313,6 +313,30 @@ fn err_text(x: &scratch::CompileError) -> String {
 /// `build`: the crate with the generated checks; `bare`: the crate holding only the
 /// generator's text of the modules that failed in `build` (decides whether the generator's
 /// text or the harness' export lines are at fault).
+/// Shape of the source definition whose emitted name is the first back-quoted identifier of a compiler message.
+fn source_shape(c: &Case, msg: &str) -> String {
+    use mclib::progs::{PLabel, PTy};
+    let Some(name) = msg.split('`').nth(1) else { return "source: ?".into() };
+    let Some((_, t)) = c.prog.defs.iter().find(|(n, _)| oracle::norm(n) == oracle::norm(name)) else { return "source: not a definition".into() };
+    let result_shaped = |fs: &Vec<(PLabel, PTy)>| {
+        let names: BTreeSet<&str> = fs.iter().filter_map(|f| if let PLabel::Named(n) = &f.0 { Some(n.as_str()) } else { None }).collect();
+        fs.len() == 2 && (names == ["Ok", "Err"].into_iter().collect() || names == ["ok", "err"].into_iter().collect())
+    };
+    let shape = match t {
+        PTy::Prim(_) => "primitive",
+        PTy::Var(_) => "alias",
+        PTy::Opt(_) => "opt",
+        PTy::Vec(_) => "vec",
+        PTy::Blob => "blob",
+        PTy::Record(_) => "record",
+        PTy::Variant(fs) if result_shaped(fs) => "result-shaped variant",
+        PTy::Variant(_) => "variant",
+        PTy::Func(_) => "func",
+        PTy::Service(_) => "service",
+    };
+    format!("source definition: {shape}")
+}
+
 fn evaluate(
     c: &Case,
     pl: &Planned,
@@ -333,7 +357,10 @@ fn evaluate(
             let dup_only = pl.pre.iter().any(|p| p.0 == "collapse") && at_fault.iter().all(|x| matches!(x.code.as_deref(), Some("E0428")));
             if !dup_only {
                 let x = at_fault[0];
-                out.push(("does-not-compile", format!("type_defs line {}: {}", x.line.saturating_sub(1), err_text(x)), strip_mod(&err_text(x))));
+                // the signature names the shape of the source definition behind the item rustc complains about,
+                // so that one compiler message stands for one cause only
+                let sig = format!("{} ({})", strip_mod(&err_text(x)), source_shape(c, &strip_mod(&err_text(x))));
+                out.push(("does-not-compile", format!("type_defs line {}: {}", x.line.saturating_sub(1), err_text(x)), sig));
             }
         } else if bare.undecided.contains(&idx) {
             // not decided (reported as an incomplete level)
